@@ -13,6 +13,7 @@ package vrt
 import (
 	"bytes"
 	"fmt"
+	"os"
 	"runtime"
 	"runtime/debug"
 	"sort"
@@ -78,7 +79,17 @@ type Sim struct {
 	OnPanic      func(t *Task, r interface{}, stack []byte)
 }
 
-var S = &Sim{}
+var S = &Sim{MapMode: envMapMode()}
+
+func envMapMode() int {
+	switch os.Getenv("VERIF_MAPMODE") {
+	case "1":
+		return 1
+	case "2":
+		return 2
+	}
+	return 0
+}
 
 // Reset prepares a fresh simulation (one run).
 func Reset() {
